@@ -174,6 +174,34 @@ class OrResetMonitor(Monitor):
         self.check(D.v_eq(outs["p"], self.p, 3), "parent context: register differs")
 
 
+def derived_ctx_design(how, parent_async):
+    """parent context with an on_reset action and a step condition; the context derived with or_reset / and_reset is documented
+    as a copy of the parent with another reset condition: the action runs whenever the derived reset is active, and the body only
+    steps when the step condition holds"""
+    pa = ["self.reset"] + (["is_async=True"] if parent_async else [])
+    return "\n".join([BMC_HEADER, "class W(cohdl.Entity):", "    clk = Port.input(Bit)", "    reset = Port.input(Bit)", "    clr = Port.input(Bit)", "    en = Port.input(Bit)", "    x = Port.input(Unsigned[3])",
+                      "    o = Port.output(Unsigned[3], default=5)", "    q = Port.output(Unsigned[3], default=1)", "    def architecture(self):",
+                      "        def act():", "            self.q <<= 6",
+                      f"        ctx = std.SequentialContext(std.Clock(self.clk), std.Reset({', '.join(pa)}), step_cond=lambda: self.en, on_reset=act)",
+                      f"        ctx2 = ctx.{how}(self.clr)",
+                      "        @ctx2", "        def derived():", "            self.o <<= self.x", "            self.q <<= self.x + 1"]) + "\n"
+
+
+class DerivedCtxMonitor(Monitor):
+    def __init__(self, how):
+        super().__init__()
+        self.how = how
+        self.o, self.q = 5, 1
+
+    def step(self, i, ins, outs):
+        pr, dc, en = bit(ins["reset"]), bit(ins["clr"]), bit(ins["en"])
+        rst = D.b_or(pr, dc) if self.how == "or_reset" else D.b_and(pr, dc)
+        self.o = mux(rst, 5, mux(en, ins["x"], self.o, 3), 3)
+        self.q = mux(rst, 6, mux(en, D.v_add(ins["x"], 1, 3), self.q, 3), 3)
+        self.check(D.v_eq(outs["o"], self.o, 3), f"context derived with {self.how}: register differs (reset to default; steps only when the parent's step condition holds)")
+        self.check(D.v_eq(outs["q"], self.q, 3), f"context derived with {self.how}: the parent's on_reset action does not decide the value under reset / step condition ignored")
+
+
 def noreset_aggregate_design(low, is_async):
     ra = ["self.reset"] + (["active_low=True"] if low else []) + (["is_async=True"] if is_async else [])
     return "\n".join([BMC_HEADER, "class C04Rec(std.Record):", "    a: Bit", "    b: Unsigned[3]", "",
@@ -219,6 +247,11 @@ def bmc_jobs(tier):
     js = []
     for pl, pa, dl in itertools.product((False, True), (False, True), (False, True)):
         js.append((f"or_reset|parent_low={pl}|parent_async={pa}|derived_low={dl}", or_reset_design(pl, pa, dl), {"reset": 1, "clr": 1, "x": 3}, ["o", "p"], 6, lambda pl=pl, dl=dl: OrResetMonitor(pl, dl)))
+    # synchronous parents only: with an asynchronous combined reset the emitted `combined_reset` signal has no initial value, real VHDL
+    # starts it at 'U' (reset condition false), the two-valued interpreter at an arbitrary bit -- a start-up glitch that would show here
+    # because the on_reset action sets another value than the declared default (the or_reset designs above cover asynchronous parents)
+    for how, pa in itertools.product(("or_reset", "and_reset"), (False,)):
+        js.append((f"derived-context|{how}|parent_async={pa}", derived_ctx_design(how, pa), {"reset": 1, "clr": 1, "en": 1, "x": 3}, ["o", "q"], 6, lambda how=how: DerivedCtxMonitor(how)))
     for low, asy in itertools.product((False, True), (False, True)):
         js.append((f"noreset-aggregate|low={low}|async={asy}", noreset_aggregate_design(low, asy), {"reset": 1, "ld": 1, "x": 3}, ["kb", "ka", "nb", "ke", "kp"], 6, lambda low=low: NoresetAggMonitor(low)))
     return js
